@@ -89,3 +89,49 @@ def opnames(spec):
             if isinstance(a, list) and a and isinstance(a[0], list):
                 out.extend(opnames(a))
     return out
+
+
+def expected_raw(spec_or_factory, events):
+    """Tail of `spec` on a raw-mux event list according to the per-lifetime reference model:
+    every key lifetime is an independent instance of the model."""
+    make = spec_or_factory if callable(spec_or_factory) else (lambda: opspecs.model(spec_or_factory))
+    exp = []
+    live = {}
+    for ev in events:
+        k = ev[1] if isinstance(ev[1], tuple) else (ev[1],)
+        if ev[0] == 'c':
+            live[k] = make()
+            exp.append(('c', k))
+        elif ev[0] == 'n':
+            for y in live[k].item(ev[2]):
+                exp.append(('n', k, y))
+        elif ev[0] == 'd':
+            for y in live.pop(k).end():
+                exp.append(('n', k, y))
+            exp.append(('d', k))
+    return exp
+
+
+def per_key(events_out):
+    """Group tail events by key: {key: [event kinds+payload in order]} (order across keys dropped)."""
+    out = {}
+    for ev in events_out:
+        out.setdefault(ev[1], []).append(ev)
+    return out
+
+
+def raw_stats(events, acc):
+    lives = {}
+    live = set()
+    two = False
+    for ev in events:
+        if ev[0] == 'c':
+            lives[ev[1]] = lives.get(ev[1], 0) + 1
+            live.add(ev[1])
+            two = two or len(live) > 1
+        elif ev[0] == 'd':
+            live.discard(ev[1])
+    if any(v > 1 for v in lives.values()):
+        acc.count('key_index_reused')
+    if two:
+        acc.count('two_live_keys')
